@@ -784,7 +784,16 @@ impl Property for C14 {
                     let kind = c.expected.get(idx).map(|s| &s[..1]).unwrap_or("?");
                     // narrow class for the listed finding: a random function inside a <specs> template is evaluated (and draws)
                     // when the specs block is registered, although nothing is rendered there
-                    let sig = if uses_random_template { "c14:random-stream-mismatch:random-function-in-specs-template".to_string() } else { format!("c14:random-stream-mismatch:{}", match kind { "T" => "text", "X" => "geometry", "C" => "comment", "R" | "G" => "reuse", _ => "count" }) };
+                    // The listed finding is exactly this: one draw is made when the <specs> block is registered (before anything
+                    // else in the document), and every occurrence after it is evaluated once, as it should be. Any other
+                    // sequence - e.g. an instance evaluated twice - is something else.
+                    let registration_draw_only = uses_random_template && {
+                        let mut c2 = OnceCtx { rng: Pcg32::seed_from_u64(*seed), expected: vec![], k: 0 };
+                        let _ = c2.rng.random_range(100..=999);
+                        once_xml(items, &mut c2, &mut Vec::new(), 0);
+                        got == c2.expected
+                    };
+                    let sig = if registration_draw_only { "c14:random-stream-mismatch:random-function-in-specs-template".to_string() } else { format!("c14:random-stream-mismatch:{}", match kind { "T" => "text", "X" => "geometry", "C" => "comment", "R" | "G" => "reuse", _ => "count" }) };
                     return Verdict::fail(
                         sig,
                         format!("occurrence #{idx}: expected {:?} got {:?}\n expected sequence {:?}\n observed sequence {:?}\n--- document (seed {seed}) ---\n{doc}\n--- output ---\n{out}", c.expected.get(idx), got.get(idx), c.expected, got),
